@@ -189,6 +189,7 @@ type group struct {
 	fals       []fals
 	falsOf     string // the node method whose answer is falsified ("" = the request's own method)
 	skipHonest bool   // the honest calls of this request are made by a sibling group
+	AtTip      bool   `json:"repeat_at_tip,omitempty"` // the node starts lying only after the light client has reached its latest height
 }
 
 type caseWitness struct {
@@ -301,6 +302,17 @@ func (cc *chainCtx) buildGroups(c *verdict.Ctx, r *rand.Rand, nTargets int, gidx
 		gs[len(gs)-1].skipHonest = true
 		add(rq, consistentNodeFals(), "Commit,Validators")
 		gs[len(gs)-1].skipHonest = true
+		// repeat at the tip: the light client is brought to the node's latest height through an honest node,
+		// then the node lies about exactly that height and the no-height methods are asked again
+		for _, meth := range []string{"Commit", "Validators"} {
+			for _, fl := range []struct {
+				of string
+				f  []fals
+			}{{"Commit", commitFals()}, {"Validators", validatorsFals()}, {"Commit,Validators", append(consistentNodeFals(), forgedTipFals()...)}} {
+				add(request{Method: meth}, fl.f, fl.of)
+				gs[len(gs)-1].skipHonest, gs[len(gs)-1].AtTip = true, true
+			}
+		}
 		// Tx / TxSearch
 		if th := cc.nearestWithTxs(h, cc.last); th != 0 {
 			txs := cc.truth[th].Block.Data.Txs
@@ -452,9 +464,39 @@ func (cc *chainCtx) runGroup(c *verdict.Ctx, g *group) {
 				target = cc.last
 			}
 			be := newBackend(cc, "node")
-			be.set(g.falsOf, target, mutate)
+			if !g.AtTip {
+				be.set(g.falsOf, target, mutate)
+			}
 			var ierr error
 			v, ierr = cc.newVerifier(be, g.TrustH, g.Seq)
+			if ierr == nil && g.AtTip {
+				// honest warm-up: reach the node's latest height, then the lie starts
+				var warmups []request
+				switch fr.Intn(3) {
+				case 0:
+					warmups = []request{g.Req}
+				case 1:
+					warmups = []request{{Method: "Block"}}
+				default:
+					warmups = []request{{Method: "Commit"}, {Method: "Validators"}}
+				}
+				if g.TrustH == cc.last && fr.Intn(2) == 0 {
+					warmups = nil // initialised at the tip: the very first no-height call meets the lie
+				}
+				ok := true
+				for i := range warmups {
+					if _, werr, _ := invoke(v.cl, &warmups[i]); werr != nil {
+						c.Count("at_tip.honest_warmup_refused."+warmups[i].Method, 1)
+						ok = false
+					}
+				}
+				if lh, _ := v.lc.LastTrustedHeight(); !ok || lh != cc.last {
+					c.Count("at_tip.client_not_at_tip_after_warmup", 1)
+					continue
+				}
+				c.Count("at_tip.cases", 1)
+				be.set(g.falsOf, target, mutate)
+			}
 			if ierr != nil {
 				if be.applied == 0 {
 					c.HarnessError("chain %d group %d: light client init failed without falsification: %v", cc.spec.Idx, g.Idx, ierr)
@@ -531,6 +573,9 @@ func (cc *chainCtx) runGroup(c *verdict.Ctx, g *group) {
 				key = "commit-relays-falsified-commit"
 			}
 			key += "-below-trusted-height"
+		}
+		if g.AtTip {
+			key = lower(m) + "-no-height-relays-falsified-" + class + "-at-tip"
 		}
 		if j.Class == "proof-shape-alias" {
 			key = lower(m) + "-relays-proof-index-total-shape-alias"
